@@ -30,12 +30,14 @@ import (
 //	                is lost; then recovery messages are lost, so that the only
 //	                way on is a view change - unless the validator still knows
 //	                that it committed.
-//	epoch-burst     the same burst for the validators that come into office at
-//	                a change of the validator count (4 -> 7): they catch up on
-//	                the last blocks of the old set and on the first proposal of
-//	                the new set at once, their answers reach only the primary
-//	                and one more validator, which accept the block and fall
-//	                silent (f = 2).
+//	epoch-burst     the same burst across a change of the validator count
+//	                (7 -> 4): f+1 = 2 validators of the small set lag behind the
+//	                big one (f = 2 there) and catch up on its last blocks and on
+//	                the first proposal of the small set at once; their answers
+//	                reach only the primary, which accepts the block and falls
+//	                silent (f = 1). With fixed validators f+1 nodes can never
+//	                lag >= 2 blocks behind together (the top block needs M
+//	                signers that hold its parent); across a shrinking they can.
 //
 // After every scripted fault the network heals completely and the post-fault
 // bounded-progress verdict applies (afterFaults).
@@ -91,7 +93,9 @@ func scenSchedules() []schedule {
 		add(fmt.Sprintf("burst-%d", i), "burst", clusterCfg{N: 7, SRIH: srih}, slices.Repeat([]scenRound{burst}, 6), 30)
 	}
 	add("burst-2", "burst", clusterCfg{N: 4, ExtPool: true}, slices.Repeat([]scenRound{burst}, 6), 30)
-	add("epoch-burst-0", "epoch", clusterCfg{N: 4, SwitchTo: 7, SwitchAt: 14}, []scenRound{{Kind: "epoch-burst"}}, 20)
+	for i, srih := range []bool{false, true} {
+		add(fmt.Sprintf("epoch-burst-%d", i), "epoch", clusterCfg{N: 7, SwitchTo: 4, SwitchAt: 14, SRIH: srih}, []scenRound{{Kind: "epoch-burst"}}, 20)
+	}
 	if thorough {
 		long := slices.Concat(recRounds, []scenRound{lock(2, ""), lock(2, "cut"), lock(3, "lost-request"), lock(1, "lost-request"), lock(0, "")})
 		for i := 2; i < 8; i++ {
@@ -111,10 +115,10 @@ func scenSchedules() []schedule {
 			}
 			add(fmt.Sprintf("burst-%d", i), "burst", c, slices.Repeat([]scenRound{burst}, 10), 60)
 		}
-		for i := 1; i < 6; i++ {
-			c := clusterCfg{N: 4, SwitchTo: 7, SwitchAt: 14, SRIH: i%2 == 1}
-			if i >= 3 {
-				c.SwitchAt = 7
+		for i := 2; i < 26; i++ {
+			c := clusterCfg{N: 7, SwitchTo: 4, SwitchAt: 14, SRIH: i%2 == 1, ExtPool: i%3 == 0}
+			if i%4 == 3 {
+				c.SwitchAt = 21
 			}
 			add(fmt.Sprintf("epoch-burst-%d", i), "epoch", c, []scenRound{{Kind: "epoch-burst"}}, 20)
 		}
@@ -396,8 +400,13 @@ func (a *attempt) backlogBurst(r scenRound) {
 		}
 	}
 	c.Cut = setOf(n, cut...)
-	if os.Getenv("C19_STAGE") != "" { // experiment knob: the payloads of the open height first
-		c.HoldBelow = top + 1
+	// The consensus payloads of the heights above the one the laggers work on
+	// get through first (small, pushed by every peer; the laggers keep them
+	// for later), the batch of blocks and the rest follow in step (2).
+	if os.Getenv("C19_NOSTAGE") == "" { // experiment knob
+		for _, l := range laggers {
+			c.HoldBelow = max(c.HoldBelow, cl.heights()[l]+2)
+		}
 	}
 	a.faultStep(c, func() bool { return false }, 3*blockTime)
 	hs := cl.heights()
@@ -442,13 +451,11 @@ func (a *attempt) epochBurst(r scenRound) {
 	cl := a.cl
 	cfg := a.sc.Cfg
 	n := len(cl.nodes)
-	if cfg.SwitchTo <= cfg.N {
+	nv := cfg.SwitchTo // validators of the small set: nodes 0..nv-1
+	if nv == 0 || nv >= cfg.N {
 		return
 	}
-	var fresh []int
-	for i := cfg.N; i < cfg.SwitchTo; i++ {
-		fresh = append(fresh, i)
-	}
+	fNew := (nv - 1) / 3
 	nextVals := func() int {
 		hs := cl.heights()
 		best := 0
@@ -463,56 +470,75 @@ func (a *attempt) epochBurst(r scenRound) {
 		}
 		return len(vals)
 	}
-	// the chain runs quietly until a few blocks before the change
-	stallFrom := cfg.SwitchAt - uint32(3+a.sr.Intn(2))
-	if !waitUntil(time.Duration(cfg.SwitchAt)*10*blockTime, func() bool { return maxU32(cl.heights()) >= stallFrom }) || nextVals() != cfg.N {
-		a.net.count("epoch_burst_not_set_up", 1)
-		return
-	}
-	// (0) the inbound links of the coming validators stall; the old set goes
-	// on to the last block it is responsible for and opens the next height
-	// with the new set: proposal and N-1 responses, which is less than M
-	c := netCfg{Kind: "epoch-burst", Hold: setOf(n, fresh...)}
-	if !a.faultStep(c, func() bool { return nextVals() == cfg.SwitchTo }, time.Duration(cfg.SwitchAt)*12*blockTime) {
-		a.net.count("epoch_burst_not_set_up", 1)
-		return
-	}
-	s := maxU32(cl.heights()) + 1 // first height of the new set
-	p, p1 := int(s)%cfg.SwitchTo, int(s-1)%cfg.SwitchTo
-	q := -1
-	for _, i := range a.sr.Perm(cfg.N) {
-		if i != p && i != p1 {
-			q = i
-			break
+	// f+1 validators of the coming set lag; neither is the primary of the
+	// first height of that set (which is SwitchAt or the height after it)
+	var laggers []int
+	for _, i := range a.sr.Perm(nv) {
+		if len(laggers) < fNew+1 && i != int(cfg.SwitchAt)%nv && i != int(cfg.SwitchAt+1)%nv {
+			laggers = append(laggers, i)
 		}
 	}
-	if p >= cfg.N || q < 0 {
+	isLagger := setOf(n, laggers...)
+	k := uint32(cfg.N + 1 + a.sr.Intn(3))
+	if len(laggers) != fNew+1 || len(laggers) > cfg.F7() || cfg.SwitchAt < k+3 {
 		a.net.count("epoch_burst_not_set_up", 1)
 		return
 	}
-	a.faultStep(c, func() bool { return false }, 4*blockTime)
-	behind := maxU32(cl.heights()) - cl.heights()[fresh[0]]
-	// (1) the backlog arrives; what the new validators (and p, q) send reaches
-	// only p and q
-	pq := setOf(n, p, q)
-	c.Hold = nil
-	c.Rules = []lossRule{{Kinds: []string{"payload", "block", "syncblock", "tx", "getdata"}, ViewMin: 0, ViewMax: -1, To: notOf(pq), Pct: 100}}
-	a.faultStep(c, func() bool { hs := cl.heights(); return hs[p] >= s && hs[q] >= s }, 15*blockTime)
+	// the chain runs quietly until k blocks before the change
+	if !waitUntil(time.Duration(cfg.SwitchAt)*10*blockTime, func() bool { return minU32(cl.heights()) >= cfg.SwitchAt-k }) || nextVals() != cfg.N {
+		a.net.count("epoch_burst_not_set_up", 1)
+		return
+	}
+	// (0) the laggers' inbound links stall; the big set goes on without them to
+	// its last block and the small set opens its first height: the proposal
+	// and the one response the others can give are less than M
+	c := netCfg{Kind: "epoch-burst", Hold: isLagger}
+	if !a.faultStep(c, func() bool { return nextVals() == nv }, time.Duration(k)*12*blockTime) {
+		a.net.count("epoch_burst_not_set_up", 1)
+		return
+	}
+	open := maxU32(cl.heights()) + 1
+	prim := int(open) % nv
+	if isLagger[prim] {
+		a.net.count("epoch_burst_not_set_up", 1)
+		return
+	}
+	for _, l := range laggers { // as in backlogBurst: the newer payloads first
+		c.HoldBelow = max(c.HoldBelow, cl.heights()[l]+2)
+	}
+	a.faultStep(c, func() bool { return false }, 3*blockTime)
+	hs := cl.heights()
+	behind := maxU32(hs) - hs[laggers[0]]
+	// (1) the backlog arrives in one burst; whatever is sent now reaches the
+	// primary only
+	c.Hold, c.HoldBelow = nil, 0
+	c.Rules = []lossRule{{Kinds: []string{"payload", "block", "syncblock", "tx", "getdata"}, ViewMin: 0, ViewMax: -1, To: notOf(setOf(n, prim)), Pct: 100}}
+	a.faultStep(c, func() bool { return cl.heights()[prim] >= open }, 12*blockTime)
 	a.net.count("epoch_burst_rounds", 1)
 	a.net.count("epoch_burst_blocks_behind_at_burst", int64(behind))
-	if hs := cl.heights(); hs[p] >= s && hs[q] >= s {
-		a.net.count("epoch_burst_block_accepted_by_two_only", 1)
+	a.net.count("epoch_burst_laggers_that_committed_during_the_burst", int64(cl.commitSenders(open, 0)))
+	if cl.heights()[prim] >= open {
+		a.net.count("epoch_burst_block_accepted_by_the_primary_alone", 1)
 	}
-	// (2) p and q fall silent (f = 2), recovery messages are lost
+	// (2) the primary falls silent (f = 1 of the small set), recovery messages
+	// are lost. Validators that know that they committed can only repeat
+	// themselves: nothing happens and the step ends early.
 	c.Rules = []lossRule{{Types: []string{"RecoveryMessage"}, ViewMin: 0, ViewMax: -1, Pct: 100}}
-	c.Cut = pq
+	c.Cut = setOf(n, prim)
+	sent := func(types ...string) (k int64) {
+		for _, l := range laggers {
+			k += cl.rec.sentOf(l, types...)
+		}
+		return
+	}
+	rm0, ask0 := sent("RecoveryMessage"), sent("RecoveryRequest", "ChangeView")
+	t0 := time.Now()
 	a.faultStep(c, func() bool {
-		hs := cl.heights()
-		for i := range hs {
-			if !pq[i] && hs[i] >= s {
+		for i, h := range cl.heights() {
+			if i != prim && h >= open {
 				return true
 			}
 		}
-		return false
+		return sent("RecoveryRequest", "ChangeView") == ask0 && time.Since(t0) > 7*blockTime && sent("RecoveryMessage") > rm0
 	}, 40*blockTime)
 }
